@@ -515,6 +515,14 @@ std::vector<double> GridLocalPolynomial::getCandidateConstructionPoints(double t
     MultiIndexSet refine_candidates = getRefinementCanidates<effrule>(tolerance, criteria, output, level_limits, scale_correction);
     MultiIndexSet new_points = (dynamic_values->initial_points.empty()) ? std::move(refine_candidates) : refine_candidates - dynamic_values->initial_points;
 
+    if (!dynamic_values->data.empty() && !new_points.empty()){
+        // samples that have been delivered but wait for their parents must not be proposed (and computed, and loaded) again
+        Data2D<int> parked(num_dimensions, (int) std::distance(dynamic_values->data.begin(), dynamic_values->data.end()));
+        int ip = 0;
+        for(auto const &d : dynamic_values->data) std::copy_n(d.point.begin(), num_dimensions, parked.getIStrip(ip++));
+        new_points = new_points - MultiIndexSet(parked);
+    }
+
     // compute the weights for the new_points points
     std::vector<double> norm = getNormalization();
 
